@@ -150,6 +150,33 @@ def repeat_tokens(rng, t):
     return t
 
 
+def unk_variant(rng, t, lang):
+    """what a treebank reader makes of a node whose category differs from the grammar's result only in features
+    (C&C-style `NP[nb]/N N => NP[nb]`): the category is kept, the node is labelled unk"""
+    nodes = []
+
+    def collect(n):
+        if not n.is_leaf:
+            if not n.is_unary:
+                nodes.append(n)
+            for c in n.children:
+                collect(c)
+    collect(t)
+    if not nodes:
+        return t
+    target = rng.choice(nodes)
+    feats = [a.feature for a in (gen_cat.en_atoms() if lang == 'en' else gen_cat.ja_atoms(small=True))]
+
+    def rebuild(n):
+        if n.is_leaf:
+            return Tree(n.cat, list(n.children), n.op_string, n.op_symbol)
+        kids = [rebuild(c) for c in n.children]
+        if n is target:
+            return Tree(gen_cat.perturb(rng, n.cat, feats), kids, 'unk', '<unk>', n.head_is_left)
+        return Tree(n.cat, kids, n.op_string, n.op_symbol, n.head_is_left)
+    return rebuild(t)
+
+
 def placeholder():
     return Tree.make_terminal('FAILED', Category.parse('NP'))
 
